@@ -253,11 +253,18 @@ ConnAckIn(cl, p) ==
   ELSE IF p.t # "CONNACK" THEN Ret(HandleDisconnect(cl), Err("InvalidPacket"))
   ELSE IF p.rc >= 128 THEN Ret(cl, [k |-> "err", v |-> "Rejected", code |-> p.rc])
   ELSE
-  LET c1 == IF p.sp THEN cl
+  LET bad == "bad" \in DOMAIN p /\ p.bad
+      \* SessionData::reset() comes right after the session-present flag has been read, before the
+      \* properties are validated
+      c1 == IF p.sp \/ (bad /\ "reset_after_validation" \in Dev) THEN cl
             ELSE [cl EXCEPT !.sp = FALSE, !.gen = @ + 1, !.nid = 1, !.ret = << >>, !.rel = << >>,
                             !.ctl = << >>, !.sids = {}]
       q == IF "quota_reset_on_resume" \in Dev THEN p.rm ELSE Sat(p.rm - Unresolved(c1))
-  IN Ret([c1 EXCEPT !.sp = TRUE, !.quota = q, !.maxq = p.rm, !.live = TRUE, !.up = TRUE,
+  IN
+  \* a success CONNACK whose properties are refused (Receive Maximum 0, Maximum QoS 3, over-long
+  \* assigned identifier): the connection fails, nothing of the new connection is activated
+  IF bad THEN Ret(HandleDisconnect(c1), Err("InvalidPacket")) ELSE
+  Ret([c1 EXCEPT !.sp = TRUE, !.quota = q, !.maxq = p.rm, !.live = TRUE, !.up = TRUE,
                     !.event = IF p.sp THEN "Reconnected" ELSE "Connected"],
          Ok(IF p.sp THEN "Reconnected" ELSE "Connected"))
 
@@ -515,6 +522,21 @@ ConnAck(sp, rm) ==
      /\ o' = Track(IF sp THEN o ELSE [o EXCEPT !.epoch = @ + 1], c')
   /\ UNCHANGED n
 
+\* ... or a success CONNACK that the client must refuse for its properties; for the broker the session
+\* exists from now on
+ConnAckBad(sp) ==
+  /\ c.pc.t = "cr" /\ n.faults < MaxFault
+  /\ sp => (b.sess /\ ~n.clean)
+  /\ LET p == [t |-> "CONNACK", sp |-> sp, rc |-> 0, rm |-> 0, bad |-> TRUE] IN
+     /\ c' = ConnAckIn(c, p)
+     /\ hist' = Log("r", p)
+     /\ b' = [b EXCEPT !.sess = TRUE,
+                       !.un = IF sp THEN b.q2 ELSE {},
+                       !.q2 = IF sp THEN @ ELSE {}, !.inq = IF sp THEN @ ELSE {},
+                       !.over = FALSE, !.overreplay = FALSE]
+     /\ o' = Track(IF sp THEN o ELSE [o EXCEPT !.epoch = @ + 1], c')
+  /\ n' = [n EXCEPT !.faults = @ + 1]
+
 ConnOther(p) ==
   /\ c.pc.t = "cr"
   /\ c' = ConnAckIn(c, p)
@@ -688,6 +710,7 @@ Next ==
   \/ ConnFlush
   \/ ConnFail
   \/ \E sp \in BOOLEAN : \E rm \in RMs : ConnAck(sp, rm)
+  \/ \E sp \in BOOLEAN : ConnAckBad(sp)
   \/ ConnOther([t |-> "CONNACK", sp |-> FALSE, rc |-> 135, rm |-> 0])
   \/ ConnOther([t |-> "PUBACK", id |-> 1, rc |-> 0])
   \/ \E ok \in BOOLEAN : DiscFlush(ok)
